@@ -41,6 +41,14 @@ class C13(DevProp):
             "inserted at every position where no up/down pair is held (quick: sampled positions); each variant and the panic-free twin are run on the "
             "real device and compared; non-trivial = distinct variants in which the panic triggered")
 
+    def perturb(self, case, res):
+        # falsify: one Note Off missing from the panic burst
+        for st in res["steps"]:
+            if len(st["midi"]) == 129:
+                del st["midi"][77]
+                return res
+        return None
+
     def gen(self, rng, tier):
         self.twins = []
         cases = []
